@@ -23,7 +23,7 @@ EXPLANATION = (
     "commutative per-element updates) - list()/join()/Series/iteration "
     "with order-sensitive bodies are reported. (c) fitted or supplied "
     "Also: worker-count parameters are only handed on (shared with C05). "
-    "models are sorted by recorded fold on every path. NOT decided: "
+    "models are sorted by recorded fold on every path. Also: the spectrum hash behind the fold assignment is a function of the key columns' values (shared with C02c). NOT decided: "
     "bit-level reproducibility of BLAS / scikit-learn.")
 TECHNIQUE = ("effect scan + call-graph reachability + set-provenance taint "
              "(ORDER) + receiver-root analysis of generator calls + CFG "
@@ -91,6 +91,11 @@ def run(ctx):
     # ... and the worker count must not reach anything but the pool size
     from .c05 import worker_count_only_forwarded
     worker_count_only_forwarded(ctx, "C08b-worker-count-only-forwarded")
+    # fold assignment is a pure function of the spectrum key's *values*:
+    # the hash is taken over the key columns' values, not over object
+    # addresses or a per-process salt (shared with C02c)
+    from .c02 import _split
+    _split(ctx, prog.func("mokapot.dataset.OnDiskPsmDataset._split"))
 
 
 # ------------------------------------------------------------------ a
